@@ -120,6 +120,15 @@ def run(ctx):
         ctx.ob('C02.S.same_routine[%s]' % r, 'RF-SIB', ok, rb.path, '%s:%s' % (rb.file, rb.line),
                '%s builds each proof with lookup_with_info(snapshot, get_lookup_info(label, snapshot epoch))' % r if ok else
                '%s does not build its proofs through get_lookup_info/lookup_with_info on the snapshot' % r, key='RF-SIB|C02.same_routine|%s' % r)
+    # batch = single, per requested label: no iteration over the requested labels may complete without a lookup info,
+    # none over the lookup infos without a proof (seeded change C02-r2-a silently dropped repeated labels)
+    rb = prog.fn_and_inner(ds.D + 'batch_lookup')
+    require_call(ctx, rb, 'C02.S.batch_each_label', 'RF-BIND', 'Directory::get_lookup_info',
+                 lambda c: True if has_leaf(arg(c, 1), 'akd_labels') else 'label argument is not an element of akd_labels',
+                 'every requested label gets a lookup info (or the request fails)', per_iteration=True)
+    require_call(ctx, rb, 'C02.S.batch_each_proof', 'RF-BIND', 'Directory::lookup_with_info',
+                 lambda c: True if has_call(arg(c, 2), 'get_lookup_info') else 'info argument does not come from get_lookup_info',
+                 'every lookup info yields a proof (or the request fails)', per_iteration=True)
     # marker helper siblings
     a = prog.one('akd::directory::get_marker_version')
     b2 = prog.one('akd_core::utils::get_marker_version_log2')
